@@ -517,6 +517,8 @@ func (w *World) relay(p *Path, a *Action, idx int) error {
 		return w.relayAck(p, a, idx, name)
 	case "timeout":
 		return w.relayTimeout(p, a, idx, name)
+	case "race":
+		return w.relayRace(p, a, idx, name)
 	}
 	return fmt.Errorf("unknown relay op %q", op)
 }
@@ -576,6 +578,104 @@ func (w *World) relayHandshake(p *Path, a *Action, idx int, name string) error {
 	// transfer channel (initiated by the consumer module in OnChanOpenAck)
 	err, _ := w.channelStep(p, idx, name, "transfer", "transfer", channeltypes.UNORDERED, "ics20-1", cConnID, pConnID, false)
 	return err
+}
+
+// relayRace advances one of possibly several concurrent CCV channel handshakes between a consumer and the
+// provider: Arg "init" opens one more handshake from the consumer side; otherwise all steps that are currently
+// possible on any pair of channel ends are enumerated and the K-th is performed, so interleavings such as
+// try, try, ack, ack, confirm, confirm can be generated.
+func (w *World) relayRace(p *Path, a *Action, idx int, name string) error {
+	P, C := w.P.Chain, p.C.Chain
+	pClient, cClient := w.clientIDs(p)
+	cConnID, cConn, cHas := findConn(C, cClient)
+	pConnID, pConn, pHas := findConn(P, pClient)
+	if !cHas || !pHas || cConn.State != connectiontypes.OPEN || pConn.State != connectiontypes.OPEN {
+		return fmt.Errorf("connection not open")
+	}
+	sgnC, sgnP := w.relayerAddr(p.ID), w.relayerAddr("")
+	if a.Relay.Arg == "init" {
+		msg := channeltypes.NewMsgChannelOpenInit(ccvtypes.ConsumerPortID, ccvtypes.Version, channeltypes.ORDERED, []string{cConnID}, ccvtypes.ProviderPortID, sgnC)
+		return w.must(w.queueOn(p.ID, idx, name+":chan_init", msg))
+	}
+	type end struct {
+		id string
+		ch channeltypes.IdentifiedChannel
+	}
+	var cEnds, pEnds []end
+	for _, ic := range C.App.GetIBCKeeper().ChannelKeeper.GetAllChannels(C.Ctx()) {
+		if ic.PortId == ccvtypes.ConsumerPortID && len(ic.ConnectionHops) == 1 && ic.ConnectionHops[0] == cConnID {
+			cEnds = append(cEnds, end{ic.ChannelId, ic})
+		}
+	}
+	for _, ic := range P.App.GetIBCKeeper().ChannelKeeper.GetAllChannels(P.Ctx()) {
+		if ic.PortId == ccvtypes.ProviderPortID && len(ic.ConnectionHops) == 1 && ic.ConnectionHops[0] == pConnID {
+			pEnds = append(pEnds, end{ic.ChannelId, ic})
+		}
+	}
+	type step struct {
+		kind string
+		c, p end
+	}
+	var steps []step
+	for _, ce := range cEnds {
+		var pe *end
+		for i := range pEnds {
+			if pEnds[i].ch.Counterparty.ChannelId == ce.id {
+				pe = &pEnds[i]
+			}
+		}
+		switch {
+		case ce.ch.State == channeltypes.INIT && pe == nil:
+			steps = append(steps, step{"try", ce, end{}})
+		case ce.ch.State == channeltypes.INIT && pe.ch.State == channeltypes.TRYOPEN:
+			steps = append(steps, step{"ack", ce, *pe})
+		case ce.ch.State == channeltypes.OPEN && pe != nil && pe.ch.State == channeltypes.TRYOPEN:
+			steps = append(steps, step{"confirm", ce, *pe})
+		}
+	}
+	if len(steps) == 0 {
+		return fmt.Errorf("no handshake step possible")
+	}
+	k := a.Relay.K
+	if k < 0 {
+		k = -k
+	}
+	st := steps[k%len(steps)]
+	switch st.kind {
+	case "try":
+		upd, _, err := w.updateClientMsg(P, C, pClient, sgnP)
+		if err != nil {
+			return err
+		}
+		proof, ph, err := proofOf(C, host.ChannelKey(ccvtypes.ConsumerPortID, st.c.id))
+		if err != nil {
+			return err
+		}
+		msg := channeltypes.NewMsgChannelOpenTry(ccvtypes.ProviderPortID, ccvtypes.Version, channeltypes.ORDERED, []string{pConnID}, ccvtypes.ConsumerPortID, st.c.id, st.c.ch.Version, proof, ph, sgnP)
+		return w.must(w.queueOn("", idx, name+":chan_try:"+st.c.id, upd, msg))
+	case "ack":
+		upd, _, err := w.updateClientMsg(C, P, cClient, sgnC)
+		if err != nil {
+			return err
+		}
+		proof, ph, err := proofOf(P, host.ChannelKey(ccvtypes.ProviderPortID, st.p.id))
+		if err != nil {
+			return err
+		}
+		msg := channeltypes.NewMsgChannelOpenAck(ccvtypes.ConsumerPortID, st.c.id, st.p.id, st.p.ch.Version, proof, ph, sgnC)
+		return w.must(w.queueOn(p.ID, idx, name+":chan_ack:"+st.c.id, upd, msg))
+	default:
+		upd, _, err := w.updateClientMsg(P, C, pClient, sgnP)
+		if err != nil {
+			return err
+		}
+		proof, ph, err := proofOf(C, host.ChannelKey(ccvtypes.ConsumerPortID, st.c.id))
+		if err != nil {
+			return err
+		}
+		msg := channeltypes.NewMsgChannelOpenConfirm(ccvtypes.ProviderPortID, st.p.id, proof, ph, sgnP)
+		return w.must(w.queueOn("", idx, name+":chan_confirm:"+st.p.id, upd, msg))
+	}
 }
 
 func (w *World) must(ok bool) error {
